@@ -40,6 +40,9 @@ type generator struct {
 	inlining map[string]struct{}
 	// number of references to nested schemas inlined so far
 	inlined int
+	// package of the document that holds the nested schema being inlined, when it is not this one:
+	// the references written in that schema with no file part designate objects of that document
+	inliningFrom string
 }
 
 // maxInlinedReferences bounds the references to nested schemas a document can
@@ -163,6 +166,11 @@ func (g *generator) walkRef(schema *openapi3.SchemaRef) (ast.Type, error) {
 		if g.inlined > maxInlinedReferences {
 			return ast.Type{}, fmt.Errorf("more than %d references to nested schemas to inline, the last one being '%s': declare these schemas under components.schemas", maxInlinedReferences, schema.Ref)
 		}
+
+		// what is inlined can come from another document
+		previous := g.inliningFrom
+		g.inliningFrom, _ = g.getRefName(schema.Ref)
+		defer func() { g.inliningFrom = previous }()
 
 		return g.walkDefinitions(schema.Value)
 	}
@@ -484,8 +492,12 @@ func (g *generator) getRefName(value string) (string, string) {
 	parts := strings.Split(value, "/")
 	schemaName := unescapeReferenceToken(parts[len(parts)-1])
 
-	// Reference in the same file
+	// Reference in the same file: the one being walked, or the one a nested schema is inlined from
 	if len(group) == 0 {
+		if g.inliningFrom != "" {
+			return g.inliningFrom, schemaName
+		}
+
 		return g.schema.Package, schemaName
 	}
 
